@@ -3,6 +3,9 @@ import XzVerif.Proofs.Writer2Size
 import XzVerif.Proofs.HashTable
 import XzVerif.Proofs.RunCost
 import XzVerif.Proofs.RunCostBT
+import XzVerif.Proofs.RunCost128
+import XzVerif.Proofs.RunCost15
+import XzVerif.Proofs.RunCostXz
 /-
   C17 — Compression is effective on redundancy and never expands data noticeably.
 
@@ -102,7 +105,7 @@ example : Expansion.sumSz [(65000, 65536, true), (100, 40, false)] = 65003 + 46 
   bytes in total, an expected symbol costs the factor 2048·8192/(2017·8191), any other decision at most 7 bits).
   **Proved: `≤ n/500 + 251` for every n, every byte value, every valid configuration with a dictionary ≥ 64 KiB.**
   The property allows 128 bytes per stream: the constant 251 (137 adaptation + 102 for four irregular operations charged
-  crudely + 12 framing) is what keeps this `_partial`; the real writer stays below n/500 + 30 (measured by the size
+  crudely + 12 framing) is what keeps THIS theorem `_partial` (the second development below reaches 112 / 128); the real writer stays below n/500 + 30 (measured by the size
   oracle on every run).  A match-finder-generic version (`RunSpec`: what a finder must propose in a run) gives 213 for HashTable4 and 229 for
   **BinaryTree** (which settles on distance 3), and the xz container adds at most 100.  Dictionaries below 64 KiB (more
   frequent ring wraps) and clause 2 (X‖X) are measured only. -/
@@ -153,6 +156,58 @@ theorem C17_xz_run_compresses_partial (c : XzW.Cfg) (hc : XzW.CfgOk c) (hd : 655
     (hblk : n ≤ c.blockSize) (hn : n < 2 ^ 40) :
     (XzW.run c HT.HT4 (HT.St.new c.w2.dictCap c.w2.bufSize) [RunCost.runOf b n]).size ≤ n / 500 + 251 + 100 :=
   RunCost.xz_run_compresses_partial c hc hd b n hblk hn
+
+/-! #### clause 1 at the property's own allowance (128 bytes per stream)
+
+  A second potential charges the 32 position-state contexts one bit per use instead of pre-paying their adaptation (initial
+  potential 299 bits instead of 1094); the per-chunk overhead and the ring wraps are paid from the slope n/500.  This
+  gives `n/500 + 112` for HashTable4 and `n/500 + 128` for BinaryTree — **clause 1 as stated, for the LZMA2 writer model
+  with either match finder, every n, every byte value, every valid configuration with a dictionary ≥ 64 KiB**.  For the
+  xz writer model (one block) the container adds 63 bytes plus the check: inside 128 + 64 for no check, CRC32 and CRC64
+  (SHA-256: 207).  With the first potential the dictionary bound goes down to 32 KiB (constants 213 / 229); below that the
+  cost of the once-per-revolution ring-end operations would have to be bounded by their real cost (measured: ≈ 2.5 bytes;
+  charged: 57), which is what keeps dictionaries < 32 KiB `measured only`. -/
+
+open W2 in
+theorem C17_run_compresses_hashtable4 (c : Cfg) (hc : CfgOk c) (hd : 65536 ≤ c.dictCap) (b : UInt8) (n : Nat) :
+    (RunCost.lzma2OfRun c b n).size ≤ n / 500 + 128 :=
+  RunCost.run_compresses_128 c hc hd b n
+
+open W2 in
+theorem C17_run_compresses_hashtable4_112 (c : Cfg) (hc : CfgOk c) (hd : 65536 ≤ c.dictCap) (b : UInt8) (n : Nat) :
+    (RunCost.lzma2OfRun c b n).size ≤ n / 500 + 112 :=
+  RunCost.run_compresses_112 c hc hd b n
+
+open W2 in
+theorem C17_run_compresses_bintree (c : Cfg) (hc : CfgOk c) (hd : 65536 ≤ c.dictCap) (b : UInt8) (n : Nat) :
+    (RunCost.lzma2OfRunBT c b n).size ≤ n / 500 + 128 :=
+  RunCost.run_compresses_128_bt c hc hd b n
+
+/-- the xz writer model, one block, HashTable4: inside the allowance 128 + 64 unless the check is SHA-256 -/
+theorem C17_xz_run_compresses (c : XzW.Cfg) (hc : XzW.CfgOk c) (hd : 65536 ≤ c.w2.dictCap) (b : UInt8) (n : Nat)
+    (hblk : n ≤ c.blockSize) (hn : n < 2 ^ 40) (hck : (Xz.checkSize c.flags).getD 0 ≤ 17) :
+    (XzW.run c HT.HT4 (HT.St.new c.w2.dictCap c.w2.bufSize) [RunCost.runOf b n]).size ≤ n / 500 + 128 + 64 :=
+  RunCost.xz_run_compresses_192 c hc hd b n hblk hn hck
+
+theorem C17_xz_run_compresses_any_check_partial (c : XzW.Cfg) (hc : XzW.CfgOk c) (hd : 65536 ≤ c.w2.dictCap) (b : UInt8) (n : Nat)
+    (hblk : n ≤ c.blockSize) (hn : n < 2 ^ 40) :
+    (XzW.run c HT.HT4 (HT.St.new c.w2.dictCap c.w2.bufSize) [RunCost.runOf b n]).size ≤
+      n / 500 + 112 + 63 + (Xz.checkSize c.flags).getD 0 :=
+  RunCost.xz_run_compresses_check c hc hd b n hblk hn
+
+open W2 in
+/-- dictionaries from 32 KiB on (first potential, larger constants) -/
+theorem C17_run_compresses_partial_32k (c : Cfg) (hc : CfgOk c) (hd : 32768 ≤ c.dictCap) (b : UInt8) (n : Nat) :
+    (RunCost.lzma2OfRun c b n).size ≤ n / 500 + 213 :=
+  RunCost.run_compresses_213_d15 c hc hd b n
+
+open W2 in
+theorem C17_run_compresses_partial_32k_bintree (c : Cfg) (hc : CfgOk c) (hd : 32768 ≤ c.dictCap) (b : UInt8) (n : Nat) :
+    (RunCost.lzma2OfRunBT c b n).size ≤ n / 500 + 229 :=
+  RunCost.run_compresses_229_bt_d15 c hc hd b n
+
+/-- the hypotheses are satisfiable: CRC64 (flags 4) has an 8-byte check -/
+example : (Xz.checkSize 4).getD 0 ≤ 17 := by decide
 
 /-- non-vacuity of the ring-end case: the counterexample to "always distance 1" (dictCap 1000, bufSize 273, 1273 bytes
     of history, a full look-ahead: the proposal is distance 19, length 20) is evaluated in Proofs/RunCost.lean (`#guard`). -/
